@@ -148,7 +148,30 @@ def c10_jobs(tier):
     return jobs
 
 
+def c15_jobs(tier):
+    q = tier == 'quick'
+    jobs = [J('root', 'H_C15_b2bit', [])]
+    for nb in range(1, (4 if q else 8) + 1):
+        jobs.append(J('root', 'H_C15_b2bitarr', [nb]))
+        jobs.append(J('root', 'H_C15_readgroup', [nb], stubs=['files']))
+    for nb in range(1, (6 if q else 12) + 1):
+        jobs.append(J('root', 'H_C15_bytes_vs_bits', [nb]))
+    for nb in ((2, 3) if q else (2, 3, 4, 5)):
+        jobs.append(J('root', 'H_C15_testbytes', [nb]))
+    for nb in ((1200,) if q else (128, 1200, 1250)):
+        jobs.append(J('root', 'H_C15_defaults', [nb], stubs=['lib_summaries']))
+        jobs.append(J('detect', 'H_C15_rounds', [nb], stubs=['runner_summaries']))
+    return jobs
+
+
 PROPS = {
+    'C15': {
+        'jobs': c15_jobs,
+        'bounds': {'quick': 'B2bit/B2Byte complete (one symbolic byte); B2bitArr and ReadGroup for <=4 bytes; byte-oriented monobit and poker (m=2,4,8) vs the bit-oriented code on B2bitArr for <=6 bytes; the other *TestBytes entry points vs Proto(B2bitArr) at 2..3 bytes; registry runners vs explicit calls with the standard defaults, and Round15/Round12 vs the fifteen runners in the standard order, on 1200 symbolic bytes with the heavy callees summarised as uninterpreted functions of their arguments',
+                   'thorough': 'bytes vs bits <=12 bytes; B2bitArr/ReadGroup <=8 bytes; defaults/rounds also at 128 and 1250 bytes'},
+        'outside': 'byte strings longer than the bounds for the two real byte-oriented fast paths (monobit, poker: e.g. counter widths are not exercised at 65536+ equal bytes); bit-identity is established as identity of the float expression over proven-equal integer counts (same operations in the same order), not by bit-precise FP solving',
+        'assumptions': ['defaults/rounds harnesses: the parameterised test functions / the runners are summarised as uninterpreted functions of (data content, parameters): equal results <=> same function on the same data with the same parameters', 'ioutil.ReadFile returns the bytes of the file (stub)'],
+    },
     'C08': {
         'jobs': c08_jobs,
         'technique': 'solver-based bounded checking of the real code under one sequentialised schedule + per-iteration disjointness obligations with a symbolic job index (bridge argument for the other schedules); go/ssa -> symbolic execution -> z3, models replayed natively with real goroutines',
